@@ -25,10 +25,27 @@ PAIRS = [
      '<start> ::= <x>* "."\n<x> ::= "a" | "b"\n', ["ab.", ".", "abba."]),
     ('<start> ::= <w>{2,}\n<w> ::= "ab" | "c"\nwhere len(str(<start>)) > 60\n',
      '<start> ::= <k> "=" <v>\n<k> ::= r"[a-c]+"\n<v> ::= <digit>+ ("." <digit>*)?\n<digit> ::= "0" | "7"\nwhere len(str(<v>)) >= 2\n', ["a=07", "abc=7.", "c=0.70"]),
+    # A's search works on large individuals; B needs the evolutionary loop and has recursive rules, so anything an
+    # operator object remembers from A's run (budgets, counters) would change what B's operators produce
+    ('<start> ::= <rec>{12,16}\n<rec> ::= <d>{3,5} ";"\n<d> ::= "0" | "1" | "2" | "3" | "4" | "5" | "6" | "7" | "8" | "9"\n'
+     'where sum(int(c) for c in str(<start>) if c.isdigit()) % 97 == 13\n',
+     '<start> ::= <e>\n<e> ::= <t> | <t> "+" <e> | <t> "*" <e>\n<t> ::= <d> | "(" <e> ")" | <d> <t>\n<d> ::= "0" | "1" | "7"\n'
+     'where eval(str(<start>)) % 50 == 27\n', ["7", "(7+1)*0", "17+(0)"], True),
 ]
 
 
-def job_for(hist, a_spec, b_spec, words, seed):
+def include_pair():
+    """two spec objects whose files include different files under the same relative name"""
+    d = subdir("c18inc")
+    main = "include('common.fan')\n<start> ::= <item> <item> <item> <sep> <item>\nwhere str(<item>) != str(<sep>)\n"
+    for v, common_ in (("v1", '<item> ::= "0" | "1"\n<sep> ::= "-"\n'), ("v2", '<item> ::= "a" | "b" | "c"\n<sep> ::= ":" | "/"\n')):
+        os.makedirs(os.path.join(d, v), exist_ok=True)
+        open(os.path.join(d, v, "main.fan"), "w").write(main)
+        open(os.path.join(d, v, "common.fan"), "w").write(common_)
+    return ("@file:" + os.path.join(d, "v1", "main.fan"), "@file:" + os.path.join(d, "v2", "main.fan"), ["abc:a", "011-0", "cc/b"])
+
+
+def job_for(hist, a_spec, b_spec, words, seed, hard=False):
     steps = []
     for st in hist:
         spec = a_spec if st["x"] == "A" else b_spec
@@ -36,8 +53,8 @@ def job_for(hist, a_spec, b_spec, words, seed):
             steps.append({"op": "make", "spec": spec, "obj": st["x"]})
         elif st["op"] == "fuzz":
             steps.append({"op": "fuzz", "spec": spec, "obj": st["x"], "seed": seed + (1 if st["x"] == "A" else 5),
-                          "settings": {"desired_solutions": 3 if st["x"] == "A" else 8, "population_size": 10,
-                                       "max_generations": (30 if st["long"] else 3) if st["x"] == "A" else 5}})
+                          "settings": {"desired_solutions": 3 if st["x"] == "A" else 8, "population_size": 20 if hard else 10,
+                                       "max_generations": (30 if st["long"] else 3) if st["x"] == "A" else (14 if hard else 5)}})
         else:
             steps.append({"op": "parse", "spec": spec, "obj": st["x"], "words": words if st["x"] == "B" else ["0", "c"]})
     return steps
@@ -79,7 +96,12 @@ def run(tier, seed):
     r2 = run_tlc("Globals", "Globals_leak", workers=1, timeout=300)
     if r2.violated != "NonInterference":
         raise common.Machinery("sanity: the leaking cap should violate NonInterference")
-    rep.add(leaking_cap_model_violates="NonInterference")
+    for cfg_ in ("Globals_opleak", "Globals_incleak"):
+        r3 = run_tlc("Globals", cfg_, workers=1, timeout=300)
+        if r3.violated != "NonInterference":
+            raise common.Machinery("sanity: %s should violate NonInterference" % cfg_)
+    rep.add(leaking_cap_model_violates="NonInterference", stateful_shared_operator_model_violates="NonInterference",
+            process_wide_include_cache_model_violates="NonInterference")
     r = run_tlc("Globals", "Globals_emit", workers=1, timeout=300)
     hists = r.printed("HIST")
     rep.tlc(r, "Globals_emit")
@@ -88,7 +110,7 @@ def run(tier, seed):
     if len(hists) < 50:
         raise common.Machinery("only %d histories" % len(hists))
     rnd = random.Random(seed)
-    pairs = list(PAIRS)
+    pairs = list(PAIRS) + [include_pair()]
     for _ in range(2 if tier == "quick" else 12):
         ga = gen.rand_grammar(rnd, flavour="text", classes=gen.SMALL_CLASSES)
         gb = gen.rand_grammar(rnd, flavour="text", classes=gen.SMALL_CLASSES)
@@ -99,11 +121,13 @@ def run(tier, seed):
     meta = {}
     cfg = 0
     baselines = {}
-    for pi, (a, b, words) in enumerate(pairs):
+    for pi, pair in enumerate(pairs):
+        a, b, words = pair[:3]
+        hard = len(pair) > 3
         for h in hists:
             first_b = next(i for i, s in enumerate(h) if s["x"] == "B")
             bsuffix = [s for s in h if s["x"] == "B"]
-            steps = job_for(h, a, b, words, seed)
+            steps = job_for(h, a, b, words, seed, hard)
             # record only B's operations: mark by building the job so that A's steps come first is not possible in general,
             # so B's events are filtered by object name below
             cfg += 1
@@ -114,7 +138,7 @@ def run(tier, seed):
                 cfg += 1
                 baselines[key] = cfg
                 meta[cfg] = (pi, bsuffix)
-                jobs.append((cfg, {"steps": job_for(bsuffix, a, b, words, seed), "record_from": 0, "only": "B"}))
+                jobs.append((cfg, {"steps": job_for(bsuffix, a, b, words, seed, hard), "record_from": 0, "only": "B"}))
     results = dict(pmap(_run, jobs, procs=8))
     pairs_out = []
     for c, (pi, h) in meta.items():
